@@ -1467,6 +1467,7 @@ impl<'a, 'b> InternalDelphiLogicalLineParser<'a, 'b> {
                     if let Some(TT::Op(OK::Colon)) = parser.get_token_type::<-1>() {
                         parser.consolidate_current_caret_to_type();
                     }
+                    parser.next_token();
                 }
                 _ => parser.next_token(),
             }
